@@ -96,7 +96,8 @@ def e0 : Expr :=
             (.call "isInRange" [.call "ip" [.lit (.string "10.0.0.1")], .call "ip" [.lit (.string "10.0.0.0/8")]])
             (.hasAttr (.record [("a b", .set [.lit (.bool true)]), ("c", .slot .principal)]) "c"))
 
-theorem e0_wf : WF e0 := by
+set_option linter.defProp false in
+def e0_wf : WF e0 := by
   simp [e0, WF, WFs, WFKVs, isBoolLit, SortedKeys, inI64, i64Min, i64Max]
   decide
 
@@ -132,7 +133,8 @@ def t0 : Template :=
     annotations := [("id", "x"), ("reason", "")]
     cond := some (.binaryApp .less (.getAttr (.var .context) "n") (.lit (.int 3))) }
 
-theorem t0_wf : WFT t0 where
+set_option linter.defProp false in
+def t0_wf : WFT t0 where
   principal := trivial
   action := by
     intro u hu
